@@ -275,6 +275,8 @@ def getitem(I, obj, idx):
             cell = st.heap[obj]
             if isinstance(idx, slice):
                 return _slist_slice(I, cell['len'], cell['arr'], cell['ek'], idx, obj.nd)
+            if isinstance(idx, Ref) and obj.nd:
+                return fancy_index(I, obj, idx)
             if numkind(idx) not in ('int', 'bool'):
                 raise Unsupported('index %r into symbolic list' % (idx,))
             i = norm_index(I, idx, cell['len'])
@@ -364,6 +366,8 @@ def _slist_slice(I, ln, arr, ek, idx, nd):
 
 def setitem(I, obj, idx, v):
     st = I.st
+    if isinstance(obj, Ref) and obj.kind in ('clist', 'slist') and obj.nd and _is_bool_mask(I, idx):
+        return mask_assign(I, obj, idx, v)
     if isinstance(obj, Ref):
         if obj.kind == 'clist':
             cell = st.heap[obj]
@@ -646,8 +650,76 @@ def elementwise1(I, a, f):
     return I.st.alloc('slist', {'len': c['len'], 'arr': z3.Lambda([k], zint(r) if ek == 'int' else zreal(r)), 'ek': ek}, nd=True)
 
 
+class MaskedSel:
+    """a[mask] for a boolean-mask ndarray: kept lazily, only usable as the right-hand side of  b[mask] = a[mask]"""
+    def __init__(self, src, mask):
+        self.src, self.mask = src, mask
+
+
+def _is_bool_mask(I, idx):
+    if not (isinstance(idx, Ref) and idx.kind in ('clist', 'slist') and idx.nd):
+        return False
+    if idx.kind == 'slist':
+        return I.st.heap[idx]['ek'] == 'bool'
+    items = I.st.heap[idx]
+    return bool(items) and all(numkind(x) == 'bool' for x in items)
+
+
 def fancy_index(I, obj, idx):
+    if _is_bool_mask(I, idx):
+        return MaskedSel(obj, idx)
     raise Unsupported('fancy indexing')
+
+
+def mask_assign(I, obj, mask, v):
+    """obj[mask] = v   with mask a boolean ndarray; v a scalar or  src[mask]  for the same mask"""
+    if isinstance(v, MaskedSel):
+        if v.mask is not mask:
+            raise Unsupported('masked assignment from a different mask')
+        src = v.src
+    elif numkind(v) is not None:
+        src = v
+    else:
+        raise Unsupported('masked assignment of %r' % (v,))
+    sel = _ewise3(I, mask, src, obj)
+    list_assign_all(I, obj, sel)
+
+
+def _ewise3(I, mask, a, b):
+    """[a_k if mask_k else b_k]"""
+    mi = seq_items(I, mask)
+    ai = seq_items(I, a) if is_list(a) else None
+    bi = seq_items(I, b)
+    if mi is not None and bi is not None and (ai is not None or not is_list(a)):
+        if len(mi) != len(bi) or (ai is not None and len(ai) != len(bi)):
+            raise PyExc('IndexError', 'boolean index did not match')
+        out = []
+        for k in range(len(bi)):
+            x = ai[k] if ai is not None else a
+            out.append(I.ite(zbool(mi[k]) if isinstance(mi[k], SV) else z3.BoolVal(bool(mi[k])), x, bi[k]))
+        return I.st.alloc('clist', out, nd=True)
+    lm, am, em = to_slist(I, mask) if mask.kind == 'slist' else (None, None, None)
+    if lm is None:
+        items = seq_items(I, mask)
+        am = z3.K(z3.IntSort(), z3.BoolVal(False))
+        for k, x in enumerate(items):
+            am = z3.Store(am, k, zbool(x))
+        lm = z3.IntVal(len(items))
+    lb, ab, eb = to_slist(I, b)
+    ab = _coerce_arr(ab, eb, 'real')
+    if not I.st.branch(lm == lb):
+        raise PyExc('IndexError', 'boolean index did not match')
+    k = z3.Int(I.st.fresh_name('k!m'))
+    if is_list(a):
+        la, aa, ea = to_slist(I, a)
+        aa = _coerce_arr(aa, ea, 'real')
+        if not I.st.branch(la == lb):
+            raise PyExc('IndexError', 'boolean index did not match')
+        av = z3.Select(aa, k)
+    else:
+        av = zreal(a)
+    arr = z3.Lambda([k], z3.If(z3.Select(am, k), av, z3.Select(ab, k)))
+    return I.st.alloc('slist', {'len': lb, 'arr': arr, 'ek': 'real'}, nd=True)
 
 
 # ===================================================================== arithmetic
@@ -1140,6 +1212,21 @@ def container_method(I, obj, name):
             return B(app)
         if name == 'extend':
             return B(lambda I_, a, k: list_extend(I_, obj, a[0]))
+        if name == 'clip' and obj.nd:
+            def clip(I_, a, k):
+                lo = a[0] if len(a) > 0 else k.get('min', k.get('a_min'))
+                hi = a[1] if len(a) > 1 else k.get('max', k.get('a_max'))
+                r = obj
+                # numpy: minimum(maximum(x, lo), hi)
+                if lo is not None:
+                    r = elementwise2(I_, r, lo, lambda x, y: I_.ite(zreal(x) >= zreal(y), x, y))
+                if hi is not None:
+                    r = elementwise2(I_, r, hi, lambda x, y: I_.ite(zreal(x) <= zreal(y), x, y))
+                if r is obj:
+                    r = snapshot_copy(I_, obj)
+                st.trusted.add('ndarray.clip(lo, hi) = minimum(maximum(x, lo), hi) elementwise')
+                return r
+            return B(clip)
         if name == 'pop':
             def pop(I_, a, k):
                 st.note_write(obj)
